@@ -77,6 +77,33 @@ def havoc_pool(it, env):
     """the loop body suspends: by the time of an arbitrary iteration other sessions have moved ports"""
     sess = it.ctx.unit_state.vars["sess"]
     sess.arbitrary_state(fields=[])
+    # loop-head snapshot for the termination step (ghost)
+    vp = env.lookup("viewed_ports")
+    sess.retry_head = {"viewed": vp.arr, "rest": sess.ghost.get("pool_rest"), "ev": len(it.ctx.events)}
+
+
+CONF = z3.Const("configured_ports", z3.ArraySort(z3.IntSort(), z3.IntSort()))  # ghost: the multiset given to Server(data_ports=...)
+
+
+def retry_ghost(it, env, phase):
+    """termination step (C11): an iteration that goes round again has taken a port that (a) was not in viewed_ports,
+    (b) is in viewed_ports now while nothing was removed from it, (c) is one of the configured ports.  The successive
+    viewed_ports therefore form a strictly increasing chain of subsets of the finite configured set;
+    lean/RetryTerminates.lean (checked by the `lean_lemma` extra) proves such a chain has at most card(configured) steps."""
+    if phase != "step":
+        return
+    sess = it.ctx.unit_state.vars["sess"]
+    head = getattr(sess, "retry_head", None)
+    got = [e for e in it.ctx.events[head["ev"]:] if e[0] == "pool.get"] if head else []
+    if head is None or len(got) != 1 or head["rest"] is None:
+        it.ctx.check("Server._start_passive_server/iteration:each-retry-views-a-configured-port-not-viewed-before", z3.BoolVal(False), info={"props": ["C11"]})
+        return
+    port = as_int(got[0][1])
+    # instance of the ghost's definition: rest = configured - (ports held by other sessions), holdings are >= 0
+    it.ctx.assume(head["rest"][port] <= CONF[port])
+    now = env.lookup("viewed_ports").arr
+    f = z3.And(z3.Not(head["viewed"][port]), now == z3.Store(head["viewed"], port, z3.BoolVal(True)), CONF[port] >= 1)
+    it.ctx.check("Server._start_passive_server/iteration:each-retry-views-a-configured-port-not-viewed-before", f, info={"props": ["C11"]})
 
 
 c.loop(
@@ -85,6 +112,7 @@ c.loop(
         invariants=[("nothing-in-flight-at-loop-head", lambda S: nothing_in_flight(S.it.ctx.unit_state)), ("I7-at-loop-head", lambda S: inv_I7(S))],
         shapes={"viewed_ports": lambda it: SymIntSet.fresh("viewed")},
         havoc=havoc_pool,
+        ghost=retry_ghost,
     ),
 )
 
@@ -153,3 +181,33 @@ for _k, _v in c.__dict__.items():
         setattr(cp, _k, _v)
 cp.pre = []
 cp.setup = lambda u: setup_sps(u, "PIPE")
+
+
+def lean_lemma(tier, seed):
+    """the pigeonhole step of the termination argument, checked by Lean 4 + Mathlib on every run"""
+    import os
+    import shutil
+    import subprocess
+    import time
+
+    root = os.path.dirname(os.path.dirname(os.path.abspath(__file__)))
+    src = os.path.join(root, "lean", "RetryTerminates.lean")
+    out = {"summary": "", "violations": [], "undecided": [], "evaluations": 0}
+    if not shutil.which("lean"):
+        out["undecided"].append("lean is not on PATH: the chain lemma of the retry-loop termination argument was not re-checked")
+        return out
+    t0 = time.time()
+    try:
+        p = subprocess.run(["lean", src], capture_output=True, text=True, timeout=900)
+    except subprocess.TimeoutExpired:
+        out["undecided"].append("lean timed out on lean/RetryTerminates.lean")
+        return out
+    txt = open(src).read()
+    bad = [w for w in ("sorry", "admit", "axiom ") if w in txt]
+    if p.returncode != 0 or bad or "sorry" in (p.stdout + p.stderr):
+        out["undecided"].append(f"lean did not accept lean/RetryTerminates.lean (exit {p.returncode}, {bad}): {(p.stdout + p.stderr)[-300:]}")
+        return out
+    out["evaluations"] = 3
+    out["summary"] = f"lean/RetryTerminates.lean: 3 theorems accepted by Lean {time.time() - t0:.1f}s (no sorry/axiom): a strictly increasing chain of subsets of the configured ports is finite"
+    out["lemma"] = {"checker": "lean 4 + Mathlib", "file": "lean/RetryTerminates.lean", "theorems": ["chain_card_ge", "retry_loop_terminates", "retry_bound"]}
+    return out
